@@ -46,7 +46,7 @@ class SymlinkNodeMixin(NodeMixin):
     """
 
     def __getattr__(self, name):
-        if name in ("_NodeMixin__parent", "_NodeMixin__children"):
+        if name in ("_NodeMixin__parent", "_NodeMixin__children") or name.startswith("_LightNodeMixin__"):
             return super(SymlinkNodeMixin, self).__getattr__(name)
         if name == "__setstate__":
             raise AttributeError(name)
